@@ -13,7 +13,8 @@
 EXTENDS L2Env
 
 FsInit(c) == [st |-> [i \in 0..(c.n - 1) |-> "P"], row |-> [i \in 0..(c.n - 1) |-> -1], done |-> FALSE, idx |-> 0]
-Init == \E c \in Cfgs : InitEnv(c, c.n, FsInit(c))
+InitFor(c) == InitEnv(c, c.n, FsInit(c))
+Init == \E c \in Cfgs : InitFor(c)
 
 RowSeq(r) == [i \in 1..N |-> r[i - 1]]
 
